@@ -1355,6 +1355,9 @@ func runC09(c *Ctx) {
 				if workSeen[cls] <= 2 || c.Thor {
 					ms = workMutantsJ2K(s, c.Thor, workSeen[cls] == 1 && s.FI.SPP == 1)
 				}
+				if workSeen[cls] == 1 && s.FI.SPP == 1 {
+					ms = append(ms, workPacketMutants(s, c.Thor)...)
+				}
 			case (s.Fam == famJPEG || s.Fam == famJLS) && s.Small && !strings.HasPrefix(s.Name, "x"):
 				workSeen[cls]++
 				if workSeen[cls] <= 1 || c.Thor && workSeen[cls] <= 4 {
